@@ -260,3 +260,81 @@ func sign3(i int) int {
 	}
 	return 0
 }
+
+// ---------------------------------------------------------------------------------------------
+// C15: Clear() leaves a container that behaves from then on exactly like a freshly constructed one.
+// For every reachable state: Clear, then the same continuation on the cleared instance and on a
+// fresh instance; one event carries both observation sequences (TLC requires them to be equal).
+
+func clearContinuations(j *jobCtx, u Universe, maxStates, contLen, conts int) {
+	x0 := u.New()
+	paths := enumStates(u, maxStates, isMut(x0))
+	for _, p := range paths {
+		if budgetExceeded() {
+			extraStats["tour_truncated"] = true
+			return
+		}
+		j.states++
+		for c := 0; c < conts; c++ {
+			x := replay(u, p)
+			f := u.New()
+			e := Ev{"fam": "clr", "kind": x.Kind(), "cfg": x.Cfg(), "op": "ClearThen", "rs": 1, "timeout": false, "obsbad": false,
+				"plen": len(p)}
+			steps := []Ev{}
+			ci := invoke(e, func() {
+				x.Do(Call{Op: "Clear"})
+				oc, _ := safeObserve(x)
+				of, _ := safeObserve(f)
+				steps = append(steps, Ev{"op": "Clear", "a": Call{}.A(), "rc": []any{}, "rf": []any{}, "oc": normObs(x, oc), "of": normObs(f, of)})
+				for s := 0; s < contLen; s++ {
+					calls := u.Calls(f)
+					if len(calls) == 0 {
+						break
+					}
+					call := calls[j.r.Intn(len(calls))]
+					if !f.Mutates(call.Op) && j.r.Intn(4) != 0 {
+						call = calls[j.r.Intn(len(calls))]
+					}
+					rc := normRet(x, call.Op, x.Do(call))
+					rf := normRet(f, call.Op, f.Do(call))
+					oc, _ := safeObserve(x)
+					of, _ := safeObserve(f)
+					steps = append(steps, Ev{"op": call.Op, "a": call.A(), "rc": rc, "rf": rf, "oc": normObs(x, oc), "of": normObs(f, of)})
+				}
+			})
+			e["panic"], e["pmsg"], e["out"] = ci.Panic, ci.PMsg, ci.Out
+			e["steps"] = steps
+			emit(e)
+			j.edges++
+			distinct["clr|"+x.Kind()+"|"+itoa(len(p))] = struct{}{}
+		}
+	}
+}
+
+// results of Keys()/Values() of hash kinds come in an unspecified order
+func normRet(x Inst, op string, r []any) []any {
+	if r == nil {
+		return []any{}
+	}
+	if jsonDisc(x.Kind()) == "unordered" && (op == "Keys" || op == "Values") && len(r) == 1 {
+		if xs, ok := r[0].([]int); ok {
+			return []any{sortedInts(xs)}
+		}
+	}
+	return r
+}
+
+func init() {
+	jobs["clr"] = jobClear
+	kindsOf["clr"] = jsonKinds
+}
+
+func jobClear(j *jobCtx) {
+	n, cl, cs := 60, 6, 2
+	if !j.quick() {
+		n, cl, cs = 600, 8, 4
+	}
+	for _, u := range jsonUniverses(j) {
+		clearContinuations(j, u, n, cl, cs)
+	}
+}
